@@ -109,96 +109,139 @@ structure CondState (α : Type) (m d c : Nat) where
   L : Option (Mat α m m)
   W : Option (AnyMat α)
 
+/-- `r = y − mu`. -/
+def residual {n c : Nat} (y : Mat α n c) (mu : α) : Mat α n c := Mat.ofFn fun i k => y.el i k - mu
+
+/-- First block of `_FullConditional.__init__` and `_LandmarksConditionalCholesky.__init__`: the
+    factor `L` and what is left of `(sigma, y_cov_factor)` afterwards (`sigma = None` once it has
+    been turned into a factor). -/
+def condL {n d : Nat} (cov : Cov α) (x : Mat α n d) (Lgiven : Option (Mat α n n)) (sigma : Sigma α n)
+    (jitter : α) (ycf : Option (AnyMat α)) (yIsMean : Bool) :
+    Except CondErr (Mat α n n × Sigma α n × Option (AnyMat α)) :=
+  match Lgiven with
+  | some L => .ok (L, sigma, ycf)
+  | Option.none =>
+    if yIsMean then
+      match getL cov x jitter Option.none with
+      | .ok L => .ok (L, sigma, ycf)
+      | .error e => .error e
+    else
+      match sigmaToYCovFactor sigma ycf with
+      | .error e => .error e
+      | .ok F =>
+        match getL cov x jitter (some F) with
+        | .ok L => .ok (L, Sigma.none, some F)
+        | .error e => .error e
+
+/-- `W = solve(Lᵀ, solve(L, y_cov_factor))` after the second `_sigma_to_y_cov_factor` call. -/
+def fullUnc {n : Nat} (L : Mat α n n) (sigma' : Sigma α n) (ycf' : Option (AnyMat α)) :
+    Except CondErr (AnyMat α) :=
+  match sigmaToYCovFactor sigma' ycf' with
+  | .error e => .error e
+  | .ok F => if F.r ≠ n then .error .internal else .ok (choSolveAny L F)
+
 /-- `_FullConditional.__init__`. `Lgiven` is the `L` argument (the estimators pass `Lp`). -/
 def fullCondInit {n d c : Nat} (cov : Cov α) (x : Mat α n d) (y : Mat α n c) (mu : α)
     (Lgiven : Option (Mat α n n)) (sigma : Sigma α n) (jitter : α) (ycf : Option (AnyMat α))
-    (yIsMean withUnc : Bool) : Except CondErr (CondState α n d c) := do
-  -- (L, sigma, y_cov_factor) after the first block
-  let (L, sigma', ycf') ← (match Lgiven with
-    | some L => pure (L, sigma, ycf)
-    | Option.none =>
-      if yIsMean then do
-        let L ← getL cov x jitter Option.none
-        pure (L, sigma, ycf)
-      else do
-        let F ← sigmaToYCovFactor sigma ycf
-        let L ← getL cov x jitter (some F)
-        pure (L, Sigma.none, some F) : Except CondErr _)
-  let r : Mat α n c := Mat.ofFn fun i k => y.el i k - mu
-  let weights := choSolveM L r
-  if !withUnc then
-    return { cov := cov, xb := x, weights := weights, mu := mu, jitter := jitter, nObs := n,
-             L := Option.none, W := Option.none }
-  -- `y_cov_factor = _sigma_to_y_cov_factor(sigma, y_cov_factor, n)` (second call)
-  let F ← sigmaToYCovFactor sigma' ycf'
-  if F.r ≠ n then throw .internal
-  return { cov := cov, xb := x, weights := weights, mu := mu, jitter := jitter, nObs := n,
-           L := some L, W := some (choSolveAny L F) }
+    (yIsMean withUnc : Bool) : Except CondErr (CondState α n d c) :=
+  match condL cov x Lgiven sigma jitter ycf yIsMean with
+  | .error e => .error e
+  | .ok (L, sigma', ycf') =>
+    let weights := choSolveM L (residual y mu)
+    if !withUnc then
+      .ok { cov := cov, xb := x, weights := weights, mu := mu, jitter := jitter, nObs := n,
+            L := Option.none, W := Option.none }
+    else
+      match fullUnc L sigma' ycf' with
+      | .error e => .error e
+      | .ok W =>
+        .ok { cov := cov, xb := x, weights := weights, mu := mu, jitter := jitter, nObs := n,
+              L := some L, W := some W }
 
 /-- `A @ M` for a run-time shaped `M`; a row mismatch is a `TypeError` in the implementation. -/
 def matMulAny {a b : Nat} (A : Mat α a b) (M : AnyMat α) : Except CondErr (AnyMat α) :=
   if M.r ≠ b then .error .internal
   else .ok ⟨a, M.c, Mat.ofFn fun i k => nsum b fun t => A.el i t * M.el t k⟩
 
-/-- `_LandmarksConditional.__init__` (DTC).  The noise factor is sized by the number of
-    landmarks `m` (as in the code: `_sigma_to_y_cov_factor(sigma, y_cov_factor, xu.shape[0])`), so a
-    scalar sigma gives `sigma·I_m`.  `cholesky(LLB)` is *not* followed by a NaN test in the
+/-- `LLB = A Aᵀ + noise` of `_LandmarksConditional.__init__` and the `y_cov_factor` left afterwards.
+    The noise factor is sized by the number of landmarks `m`
+    (`_sigma_to_y_cov_factor(sigma, y_cov_factor, xu.shape[0])`). -/
+def lmLLB {m : Nat} (AAt : Mat α m m) (sigma : Sigma α m) (jitter : α) (ycf : Option (AnyMat α))
+    (yIsMean : Bool) : Except CondErr (Mat α m m × Option (AnyMat α)) :=
+  if yIsMean then .ok (stabilize AAt jitter, ycf)
+  else
+    match sigmaToYCovFactor sigma ycf with
+    | .error e => .error e
+    | .ok F =>
+      match addVariance AAt (some F) jitter with
+      | .error e => .error e
+      | .ok LLB => .ok (LLB, some F)
+
+/-- DTC weights: `Lᵀ w = z`, `(A Aᵀ + noise) z = A r`. -/
+def lmWeights {n m c : Nat} (L LB : Mat α m m) (A : Mat α m n) (r : Mat α n c) : Mat α m c :=
+  solveUpperTM L (choSolveM LB (matMul A r))
+
+/-- `W` of `_LandmarksConditional` (`with_uncertainty`): the factor is the supplied `y_cov_factor`
+    or, when there is none, `_sigma_to_y_cov_factor(sigma, None, m)` (the `ValueError` of a missing
+    noise specification); `dot(A, factor)` needs `n` rows. -/
+def lmUnc {n m : Nat} (L LB : Mat α m m) (A : Mat α m n) (sigma : Sigma α m) (ycf' : Option (AnyMat α)) :
+    Except CondErr (AnyMat α) :=
+  let F? : Except CondErr (AnyMat α) := match ycf' with
+    | some F => .ok F
+    | Option.none => sigmaToYCovFactor sigma Option.none
+  match F? with
+  | .error e => .error e
+  | .ok F =>
+    match matMulAny A F with
+    | .error e => .error e
+    | .ok AF => .ok (solveUpperTAny L (choSolveAny LB AF))
+
+/-- `_LandmarksConditional.__init__` (DTC).  `cholesky(LLB)` is *not* followed by a NaN test in the
     implementation; the model reports `notPosDef` where the implementation would carry NaNs on. -/
 def lmCondInit {n m d c : Nat} (cov : Cov α) (x : Mat α n d) (xu : Mat α m d) (y : Mat α n c)
     (mu : α) (sigma : Sigma α m) (jitter : α) (ycf : Option (AnyMat α))
-    (yIsMean withUnc : Bool) : Except CondErr (CondState α m d c) := do
-  let Kuf := gram cov xu x
-  let L ← getL cov xu jitter Option.none
-  let A := solveLowerM L Kuf                   -- m × n
-  let AAt := matMulT A A                       -- m × m
-  let (LLB, ycf') ← (if yIsMean then
-      pure (stabilize AAt jitter, ycf)
-    else do
-      let F ← sigmaToYCovFactor sigma ycf
-      let LLB ← addVariance AAt (some F) jitter
-      pure (LLB, some F) : Except CondErr _)
-  match chol? LLB with
-  | Option.none => throw .notPosDef
-  | some LB =>
-    let r : Mat α n c := Mat.ofFn fun i k => y.el i k - mu
-    let z := choSolveM LB (matMul A r)
-    let weights := solveUpperTM L z
-    if !withUnc then
-      return { cov := cov, xb := xu, weights := weights, mu := mu, jitter := jitter, nObs := n,
-               L := Option.none, W := Option.none }
-    -- `C = solve_triangular(L_B, dot(A, y_cov_factor))`, `dot(A, None)` is a TypeError
-    match ycf' with
-    | Option.none => throw .internal
-    | some F =>
-      let AF ← matMulAny A F
-      let W := solveUpperTAny L (choSolveAny LB AF)
-      return { cov := cov, xb := xu, weights := weights, mu := mu, jitter := jitter, nObs := n,
-               L := some L, W := some W }
+    (yIsMean withUnc : Bool) : Except CondErr (CondState α m d c) :=
+  match getL cov xu jitter Option.none with
+  | .error e => .error e
+  | .ok L =>
+    let A := solveLowerM L (gram cov xu x)      -- m × n
+    match lmLLB (matMulT A A) sigma jitter ycf yIsMean with
+    | .error e => .error e
+    | .ok (LLB, ycf') =>
+      match chol? LLB with
+      | Option.none => .error .notPosDef
+      | some LB =>
+        let weights := lmWeights L LB A (residual y mu)
+        if !withUnc then
+          .ok { cov := cov, xb := xu, weights := weights, mu := mu, jitter := jitter, nObs := n,
+                L := Option.none, W := Option.none }
+        else
+          -- in the `not y_is_mean` branch the code has set `sigma = None`, but then `ycf'` is `some`
+          match lmUnc L LB A sigma ycf' with
+          | .error e => .error e
+          | .ok W =>
+            .ok { cov := cov, xb := xu, weights := weights, mu := mu, jitter := jitter, nObs := n,
+                  L := some L, W := some W }
 
 /-- `_LandmarksConditionalCholesky.__init__`.  `sigma` doubles as the standard deviation of the
-    latent vector (`Stds = diag(sigma)` or `eye(m)*sigma`). -/
+    latent vector (`Stds = diag(sigma)` or `eye(m)*sigma`); a missing `sigma` is the `ValueError` of
+    `_sigma_to_y_cov_factor(None, None, m)`. -/
 def lmCholCondInit {m d c : Nat} (cov : Cov α) (xu : Mat α m d) (z : Mat α m c) (mu : α) (nObs : Nat)
     (Lgiven : Option (Mat α m m)) (sigma : Sigma α m) (jitter : α)
-    (yIsMean withUnc : Bool) : Except CondErr (CondState α m d c) := do
-  let (L, sigma') ← (match Lgiven with
-    | some L => pure (L, sigma)
-    | Option.none =>
-      if yIsMean then do
-        let L ← getL cov xu jitter Option.none
-        pure (L, sigma)
-      else do
-        let F ← sigmaToYCovFactor sigma Option.none
-        let L ← getL cov xu jitter (some F)
-        pure (L, Sigma.none) : Except CondErr _)
-  let weights := solveUpperTM L z
-  if !withUnc then
-    return { cov := cov, xb := xu, weights := weights, mu := mu, jitter := jitter, nObs := nObs,
-             L := Option.none, W := Option.none }
-  match sigmaFactor sigma' with
-  | Option.none => throw .internal     -- `diagonal(None)` / `eye(m) * None`: TypeError
-  | some Stds =>
-    return { cov := cov, xb := xu, weights := weights, mu := mu, jitter := jitter, nObs := nObs,
-             L := some L, W := some (solveUpperTAny L Stds) }
+    (yIsMean withUnc : Bool) : Except CondErr (CondState α m d c) :=
+  match condL cov xu Lgiven sigma jitter Option.none yIsMean with
+  | .error e => .error e
+  | .ok (L, sigma', _) =>
+    let weights := solveUpperTM L z
+    if !withUnc then
+      .ok { cov := cov, xb := xu, weights := weights, mu := mu, jitter := jitter, nObs := nObs,
+            L := Option.none, W := Option.none }
+    else
+      match sigmaFactor sigma' with
+      | Option.none => .error .noUncertaintyInput
+      | some Stds =>
+        .ok { cov := cov, xb := xu, weights := weights, mu := mu, jitter := jitter, nObs := nObs,
+              L := some L, W := some (solveUpperTAny L Stds) }
 
 /-! ### evaluation (identical code in the three families) -/
 
@@ -281,5 +324,24 @@ def predictNormalized (v nObs : α) (normalize : Bool) : α :=
 /-- `ExpPredictor.mean(x, logscale)`. -/
 def predictExp (v : α) (logscale : Bool) : α :=
   if logscale then v else exp v
+
+end Mellon
+
+namespace Mellon
+
+/-- The three predictor families. -/
+inductive Family where
+  | full | landmarks | landmarksCholesky
+  deriving Repr, DecidableEq, Inhabited
+
+/-- Dispatch of `inference.compute_conditional*`: no landmarks → full; a latent vector with as many
+    rows as there are landmarks → Cholesky-latent; otherwise DTC. -/
+def dispatchFamily (nLandmarks : Option Nat) (preRows : Option Nat) : Family :=
+  match nLandmarks with
+  | Option.none => .full
+  | some m =>
+    match preRows with
+    | some r => if r = m then .landmarksCholesky else .landmarks
+    | Option.none => .landmarks
 
 end Mellon
